@@ -74,6 +74,9 @@ func UnmarshalValue(ctx Ctx, target reflect.Value, cont Sink) Sink {
 				valueKind := targetType.Elem().Kind()
 				switch valueKind {
 
+				case reflect.Ptr:
+					// converted once the pointer has been dereferenced
+
 				case reflect.String:
 					token.Kind = KindString
 
